@@ -32,7 +32,7 @@ EXTRA_COVERAGE = {'exhaustive': lambda tier: tier == 'thorough',
 
 def floors(tier):
     return {'pairs:distinct-accepted': 300, 'pairs:collision-refused': 5,
-            'sets:lifecycle': 15, 'dup-output:refused': 5, 'stemfam:accepted': 10, 'distinct_nontrivial': 300}
+            'sets:lifecycle': 15, 'dup-output:refused': 5, 'stemfam:accepted': 10, 'sibling:accepted': 20, 'distinct_nontrivial': 300}
 
 
 def all_paths():
@@ -73,6 +73,15 @@ def cases(tier, seed):
         for fam in (fams if tier == 'thorough' else fams[:8]):
             for d in ('', 'd/'):
                 yield {'kind': 'stemfam', 'backend': backend, 'srcs': [d + f for f in fam]}
+    # a target below the top of the build tree with a source in a SIBLING directory whose name
+    # extends the target directory's name (sub / subdir, bin / binx): string-prefix slips in
+    # the '..' -> PAR mapping fold '../subdir/util.c' onto 'dir/util.c'
+    for backend in ('make', 'ninja'):
+        for d, sib, rest in (('sub', 'subdir', 'dir'), ('bin', 'binx', 'x'), ('out', 'out-gen', '-gen'),
+                             ('m', 'm.old', '.old'), ('lib', 'lib64', '64')):
+            for form in ('submodule', 'named-target', 'copy-directory'):
+                yield {'kind': 'sibling', 'backend': backend, 'dir': d, 'sibling': sib,
+                       'rest': rest, 'form': form}
     n = 30 if tier == 'quick' else 250
     for i in range(n):
         r = core.rng_for(seed, 'c05set', i)
@@ -368,8 +377,63 @@ def run_stemfam(case, res):
         core.rmtree(root)
 
 
+def run_sibling(case, res):
+    backend, d, sib, rest = case['backend'], case['dir'], case['sibling'], case['rest']
+    root = core.mkscratch('c05b')
+    try:
+        src, bld = os.path.join(root, 'src'), os.path.join(root, 'bld')
+        ext = '.txt' if case['form'] == 'copy-directory' else '.c'
+        a = '%s/util%s' % (sib, ext)            # sibling directory
+        b = '%s/%s/util%s' % (d, rest, ext)     # what a prefix-stripping slip would fold it onto
+        files = {a: 'int a_;\n', b: 'int b_;\n'}
+        if case['form'] == 'submodule':
+            files['build.bfg'] = 'submodule(%r)\n' % d
+            files[d + '/build.bfg'] = "executable('prog', files=[%r, %r])\n" % (
+                '../' + a, '%s/util%s' % (rest, ext))
+        elif case['form'] == 'named-target':
+            files['build.bfg'] = "executable(%r, files=[%r, %r])\n" % (d + '/tool', a, b)
+        else:
+            files['build.bfg'] = "default(copy_files([%r, %r], directory=%r))\n" % (
+                a, b, d + '/stage')
+        try:
+            proj.write_tree(src, files)
+        except OSError:
+            res.exclude('file system refuses the name')
+            return
+        log = os.path.join(root, 'log')
+        extra = proj.stub_toolchain_env(log)
+        extra.update({'CP': 'vwrap-cp -f', 'VSTUB_ENVKEYS': 'NONE'})
+        env = core.base_env(extra)
+        res.evaluations = 1
+        res.key(['sibling', backend, d, sib, case['form']], True)
+        wb = {'backend': backend, 'form': case['form'], 'sources': [a, b]}
+        rc, out = proj.configure(src, bld, backend, env=env)
+        if rc != 0:
+            res.violate((backend, 'distinct-sources-refused', 'sibling-dir-name-extends-target-dir'),
+                        dict(wb, output=out[-500:]))
+            return
+        rc, out = proj.build(bld, backend, [], env=env)
+        outs = []
+        for r in proj.read_log(log):
+            o = proj.step_outputs(r)
+            if os.path.basename(r['name']) == 'vwrap-cp':
+                o = [os.path.normpath(os.path.join(r['cwd'], r['argv'][-1]))]
+            outs.extend(x for x in o if x.endswith('.o') or ext == '.txt')
+        if rc != 0 or len(outs) != 2 or len(set(outs)) != 2:
+            res.violate((backend, 'outputs-collide', 'sibling-dir-name-extends-target-dir'),
+                        dict(wb, outputs=[os.path.relpath(o, bld) for o in outs], rc=rc,
+                             output=out[-300:]))
+        for o in outs:
+            if not o.startswith(bld + os.sep):
+                res.violate((backend, 'output-outside-builddir'), dict(wb, output=o))
+        res.ev('sibling:accepted')
+        res.sample = dict(wb, outputs=sorted(os.path.relpath(o, bld) for o in outs))
+    finally:
+        core.rmtree(root)
+
+
 def run_case(case):
     res = CaseResult()
-    {'pairs': run_pairs, 'set': run_set, 'dup': run_dup,
-     'stemfam': run_stemfam}[case['kind']](case, res)
+    {'pairs': run_pairs, 'set': run_set, 'dup': run_dup, 'stemfam': run_stemfam,
+     'sibling': run_sibling}[case['kind']](case, res)
     return res
